@@ -312,6 +312,13 @@ pub fn c07_post(progs: &[Prog], reports: &[serde_json::Value]) -> Vec<(usize, se
                 break;
             }
         }
+        if bad.is_none() {
+            let (dp, ds, da) = (&rp["c07"]["deep"], &rs["c07"]["deep"], &ra["c07"]["deep"]);
+            let timeout = |v: &serde_json::Value| v == "timeout";
+            if !(timeout(dp) || timeout(ds) || timeout(da)) && (dp != ds || ds != da) {
+                bad = Some((is, format!("with every callback using 256 KiB of stack: {}! {}, {}! {}, {}! {}", progs[ip].mac, dp, progs[is].mac, ds, progs[ia].mac, da)));
+            }
+        }
         if bad.is_none() && rs["c07"]["spawn_sig"] != ra["c07"]["spawn_sig"] {
             bad = Some((ia, format!("alias {}! reaches {} pending points within the first poll, {}! reaches {}: one spawns tasks, the other does not", progs[ia].mac, ra["c07"]["spawn_sig"], progs[is].mac, rs["c07"]["spawn_sig"])));
         }
@@ -356,7 +363,7 @@ fn c07(tier: &str, seed: u64) -> GridCheck {
     c.post = Some(c07_post);
     c.batch_size = 480;
     c.budget = if tier == "quick" { 64 } else { 256 };
-    c.rule = "programs: random grid programs (values Send + 'static, branches do not communicate), each rendered under the three macro names of its class {plain, spawn, alias}; inputs: the same enumerated / sampled failure plans for all three. Oracle (metamorphic, no model involved): equal results across the three; equal per-branch callback sequences between plain and spawn (except in a failing step of a try-async macro); alias and canonical spawn macro equal in result, callback sequences, thread-name signature (sync) and first-poll arrival count (async: spawned vs not spawned); the expected result type is ascribed, so an alias wired to the wrong configuration fails to compile. A run is one (program, macro name, plan); non-trivial = >=2 branches and a multi-branch step".to_string();
+    c.rule = "programs: random grid programs (values Send + 'static, branches do not communicate), each rendered under the three macro names of its class {plain, spawn, alias}; inputs: the same enumerated / sampled failure plans for all three. Oracle (metamorphic, no model involved): equal results across the three; equal per-branch callback sequences between plain and spawn (except in a failing step of a try-async macro); alias and canonical spawn macro equal in result, callback sequences, thread-name signature (sync) and first-poll arrival count (async: spawned vs not spawned); the all-succeed run repeated in a child process with every callback using 256 KiB of stack completes under all three names or under none; the expected result type is ascribed, so an alias wired to the wrong configuration fails to compile. A run is one (program, macro name, plan); non-trivial = >=2 branches and a multi-branch step".to_string();
     c
 }
 
